@@ -144,8 +144,11 @@ def check_adapter_stage(ctx, c, case, side, I, O, matches, is_rc, trim_O, key):
                                             klass=action)
     if not matches:
         same = (O[1], O[2]) == (I[1], I[2])
-        if action == "lowercase" and (O[1], O[2]) == (I[1].upper(), I[2]):
-            same = True  # nothing removed: the whole read is the kept part, which lowercase upper-cases
+        if action == "lowercase":
+            # nothing removed: the whole read is the kept part, which lowercase upper-cases; with --pair-adapters an
+            # unmatched pair is documented to stay unchanged, so both spellings are accepted there
+            upper = (O[1], O[2]) == (I[1].upper(), I[2])
+            same = upper or (c["pair_adapters"] and same)
         if not same:
             viol("untouched-without-match", f"no match but adapter stage changed {I[1]!r} -> {O[1]!r}")
         return
